@@ -1145,6 +1145,67 @@ EXT_SHAPES = ("{n}.rsplit('.', 1)[-1].lower()", "{n}.lower().rsplit('.', 1)[-1]"
               "{n}.split('.')[-1].lower()", "{n}.lower().split('.')[-1]", "{n}.lower().rpartition('.')[2]", "{n}.lower().rpartition('.')[-1]")
 
 
+def _ext_shape_of(e, n):
+    """expression e is the lower-cased text after the last dot of name n (optionally guarded by `if '.' in n else <constant>`)"""
+    if isinstance(e, ast.IfExp) and isinstance(e.orelse, ast.Constant) and ast.unparse(e.test).replace('"', "'") == f"'.' in {n}":
+        e = e.body
+    s = ast.unparse(e).replace('"', "'")
+    return any(s == sh.format(n=n) for sh in EXT_SHAPES)
+
+
+def _ct_helper_body(ck, helper):
+    """The content-type helper of a module (`_get_content_type(name)` / the shared ODF `guess_content_type(path)`): every return is the table
+    image of the lower-cased extension of its parameter, or `mimetypes.guess_type(<parameter>)[0] [or <constant>]` (assumed library model:
+    the mimetypes table maps the raster extensions case-insensitively).  -> None when recognised, else the reason (`unknown`)."""
+    from contracts import c14_sites as SI
+    from contracts.c14_flow import reaching
+    try:
+        rel = ck.rel if helper in ck.mod.functions else EX + "open_office/_shared.py"
+        hk = SI.Checker("C14", rel, helper, ck.mod.repo, inline=False)
+        if hk.fn is None or len(hk.fn.args.args) != 1:
+            return f"content-type helper {helper} not found"
+        pn = hk.fn.args.args[0].arg
+        if any(isinstance(n, ast.Name) and isinstance(n.ctx, ast.Store) and n.id == pn for n in ast.walk(hk.fn)):
+            return f"{helper}: parameter re-bound"
+
+        def deref(v, at):
+            for _ in range(3):
+                if isinstance(v, ast.Name) and v.id != pn:
+                    b = reaching(hk.fn, hk.pm, v.id, at)
+                    if b is None or b.kind != "assign":
+                        return v
+                    v, at = b.value, b.node
+                else:
+                    break
+            return v
+        rets = [n for n in ast.walk(hk.fn) if isinstance(n, ast.Return)]
+        if not rets:
+            return f"{helper}: no return"
+        for r in rets:
+            v = deref(r.value, r) if r.value is not None else None
+            if v is None:
+                return f"{helper}: bare return"
+            key = None
+            if isinstance(v, ast.Call) and dotted(v.func) == "_CONTENT_TYPE_MAP.get" and v.args:
+                key = v.args[0]
+            elif isinstance(v, ast.Subscript) and dotted(v.value) == "_CONTENT_TYPE_MAP":
+                key = v.slice
+            if key is not None:
+                if not _ext_shape_of(deref(key, r), pn):
+                    return f"{helper}: key {ast.unparse(deref(key, r))[:60]}"
+                continue
+            g = v.values[0] if isinstance(v, ast.BoolOp) and isinstance(v.op, ast.Or) and len(v.values) == 2 and isinstance(v.values[1], ast.Constant) else v
+            g = deref(g, r)
+            if isinstance(g, ast.Subscript) and isinstance(g.slice, ast.Constant) and g.slice.value == 0 and isinstance(g.value, ast.Call) \
+                    and dotted(g.value.func) == "mimetypes.guess_type" and len(g.value.args) == 1 and not g.value.keywords \
+                    and isinstance(g.value.args[0], ast.Name) and g.value.args[0].id == pn:
+                continue
+            return f"{helper}: returns {ast.unparse(v)[:60]}"
+        return None
+    except Exception as e:  # noqa  -- a shape this reader does not handle: unknown, the native sweep decides
+        return f"{helper}: shape not recognised ({type(e).__name__})"
+
+
 def _ct_from_extension(ck, sites, of_names, label="looked-up-by-the-lower-cased-extension"):
     """content_type= is `_CONTENT_TYPE_MAP.get(ext, ...)` / `_CONTENT_TYPE_MAP[ext]` with ext = the lower-cased text after the last dot of
     a name that (by data flow) holds the part name, or `_get_content_type(<such a name>)` / `guess_content_type(<such a name>)`.
@@ -1188,7 +1249,11 @@ def _ct_from_extension(ck, sites, of_names, label="looked-up-by-the-lower-cased-
                 bad.append(f"line {LN(c)}: key {ast.unparse(k)[:60]}")
         elif isinstance(v, ast.Call) and dotted(v.func).split(".")[-1] in ("_get_content_type", "guess_content_type") and len(v.args) == 1 \
                 and isinstance(v.args[0], ast.Name) and _names_the_part(ck, v.args[0].id, at):
-            ok += 1
+            why = _ct_helper_body(ck, dotted(v.func).split(".")[-1])      # the helper's own body is part of the claim
+            if why is None:
+                ok += 1
+            else:
+                bad.append(f"line {LN(c)}: {why}")
         else:
             bad.append(f"line {LN(c)}: content_type={ast.unparse(v)[:60]}")
     if bad or not ok:
